@@ -687,7 +687,7 @@ impl Check for C03Check {
         }
     }
     fn rule(&self) -> &'static str {
-        "cases 0..N-1 enumerate the typed-assignment matrix completely: 17 write mechanisms (assign, initialiser, FB input, FB in-out, function return, struct field, array element, subrange, arithmetic with an untyped literal, FOR control incl. loops that end before an iteration completes, FB output read, implicit initial values of subranges excluding 0 incl. restarts, positional calls of FBs and functions that declare EN/ENO themselves, program writes and external write_access through partial %X/%B/%W/%D access paths) x every ordered pair of 16 elementary numeric/bit/duration types (cells the checker rejects are counted and skipped); then debugger writes through the real control endpoint: `set` and `var.force` x 18 variable types x 19 values (in range, top bit set, just out of range, negative, TRUE); the remaining cases are seeded histories of ProgGen programs under cycles with boundary %I images, value faults + continue, warm/cold restarts and save + power cycle; after EVERY operation every program / FB / struct / array slot is compared with its declaration (VarDef.type_id resolved in the type registry, subranges and enums range-checked) and every global with its build-time tag; distinct non-trivial = distinct accepted matrix cells + distinct (program hash) histories"
+        "cases 0..N-1 enumerate the typed-assignment matrix completely: 21 write mechanisms (assign, initialiser, FB input, FB in-out, function return, struct field, array element, subrange, arithmetic with an untyped literal, FOR control incl. loops that end before an iteration completes, FB output read, implicit initial values of subranges excluding 0 incl. restarts, positional calls of FBs and functions that declare EN/ENO themselves, program writes and external write_access through partial %X/%B/%W/%D access paths and through array elements into struct fields, LIMIT with narrower bounds, unbound function outputs next to a same-named caller variable, CHAR / WCHAR initialisers in both quote styles) x every ordered pair of 16 elementary numeric/bit/duration types (cells the checker rejects are counted and skipped); then debugger writes through the real control endpoint: `set` and `var.force` x 18 variable types x 19 values (in range, top bit set, just out of range, negative, TRUE); the remaining cases are seeded histories of ProgGen programs under cycles with boundary %I images, value faults + continue, warm/cold restarts and save + power cycle; after EVERY operation every program / FB / struct / array slot is compared with its declaration (VarDef.type_id resolved in the type registry, subranges and enums range-checked) and every global with its build-time tag; distinct non-trivial = distinct accepted matrix cells + distinct (program hash) histories"
     }
     fn assumptions(&self) -> Vec<&'static str> {
         vec![
